@@ -31,6 +31,9 @@ PLAIN = ["pan", "eks", "wye", "zee", "0x1F", "-1.5e3", "007", "long" * 30, "\u00
 
 def names(r, n):
     base = ["a", "b", "c", "d", "e", "f", "g", "h", "i", "j", "k", "l", "m", "n"]
+    if r.chance(0.5):
+        # names of different lengths: aligned formats (xtab, pprint) pad with repeated separators
+        base = ["a", "bbb", "cc", "d", "eeeee", "ff", "g", "hhhh", "i", "jj", "kkk", "l", "mm", "n"]
     return base[:n]
 
 
@@ -67,14 +70,15 @@ def gen_recs(r, fmt):
 VARIANTS = {
     "csv": [([], []), (["--quote-all"], []), (["--ors", "crlf"], []), (["--ofs", ";"], ["--ifs", ";"]),
             (["--ofs", "tab"], ["--ifs", "tab"]), (["--headerless-csv-output"], ["--implicit-csv-header"]), (["--ofs", "|", "--quote-all"], ["--ifs", "|"])],
-    "csvlite": [([], []), (["--ofs", ";"], ["--ifs", ";"]), (["--ofs", ";;"], ["--ifs", ";;"])],
+    "csvlite": [([], []), (["--ofs", ";"], ["--ifs", ";"]), (["--ofs", ";;"], ["--ifs", ";;"]), (["--ofs", "\u2192"], ["--ifs", "\u2192"])],
     "tsv": [([], []), (["--ors", "crlf"], [])],
     "json": [([], []), (["--jvstack"], []), (["--no-jvstack"], []), (["--jlistwrap"], [])],
     "jsonl": [([], [])],
     "dkvp": [([], []), (["--ofs", ";", "--ops", ":"], ["--ifs", ";", "--ips", ":"]), (["--ofs", ";;", "--ops", "::"], ["--ifs", ";;", "--ips", "::"]),
+             (["--ofs", "\u2192", "--ops", "\u21d2"], ["--ifs", "\u2192", "--ips", "\u21d2"]), (["--ors", "\u2192\u2192"], ["--irs", "\u2192\u2192"]),
              (["--ors", ";\n"], ["--irs", ";\n"]), (["--ors", ";;"], ["--irs", ";;"]), (["--ors", "xy"], ["--irs", "xy"]), (["--ors", "aab"], ["--irs", "aab"])],
-    "nidx": [(["--ofs", " "], ["--ifs", " "]), (["--ofs", ","], ["--ifs", ","]), (["--ofs", " ", "--ors", "||"], ["--ifs", " ", "--irs", "||"])],
-    "xtab": [([], []), (["--ops", ":"], ["--ips", ":"])],
+    "nidx": [(["--ofs", " "], ["--ifs", " "]), (["--ofs", ","], ["--ifs", ","]), (["--ofs", "\u2192"], ["--ifs", "\u2192"]), (["--ofs", " ", "--ors", "||"], ["--ifs", " ", "--irs", "||"])],
+    "xtab": [([], []), (["--ops", ":"], ["--ips", ":"]), (["--ops", "\u2192"], ["--ips", "\u2192"]), (["--ops", ": "], ["--ips", ": "]), (["--ops", "::"], ["--ips", "::"])],
     "pprint": [([], []), (["--barred"], ["--barred-input"]), (["--right"], [])],
     "markdown": [([], [])],
     "usv": [([], [])],
@@ -105,6 +109,8 @@ def stream_cfg(rng, data, allow_stdin=True):
         c["chunk"] = {"max": rng.choice([1, 1, 2, 3, 5, 7, 13, 64, 1000]), "mode": rng.choice(["fixed", "random"]), "seed": rng.randint(1, 1 << 30)}
     if rng.chance(0.6):
         c["knobs"] = {"bufr": rng.choice([16, 16, 17, 31, 64, 4096]), "bufw": rng.choice([16, 17, 64, 4096])}
+    if rng.chance(0.3):
+        c["strip_final"] = True  # the last record arrives without its terminator (EOF right after the last byte of data)
     if allow_stdin and rng.chance(0.35):
         c["stdin"] = True
         if rng.chance(0.6) and data:
@@ -200,7 +206,16 @@ def evaluate(case, chk):
                 arr.append(pos)
             cfg = dict(cfg)
             cfg["arrivals"] = arr
-        r = run_reader(chk, vd, ff, case["ropts"], data, cfg)
+        rdata = data
+        if cfg.get("strip_final"):
+            term = final_terminator(case)
+            if term and rdata.endswith(term) and len(rdata) > len(term):
+                rdata = rdata[:-len(term)]
+                vd.notes["final_terminator_stripped"] = vd.notes.get("final_terminator_stripped", 0) + 1
+                if cfg.get("arrivals"):
+                    cfg = dict(cfg)
+                    cfg["arrivals"] = [a for a in cfg["arrivals"] if a < len(rdata)] + [len(rdata)]
+        r = run_reader(chk, vd, ff, case["ropts"], rdata, cfg)
         if bad(vd, r, "reader", cfg, fmt=fmt, ropts=case["ropts"], bom=case.get("bom")):
             return vd
         try:
@@ -254,6 +269,17 @@ def evaluate(case, chk):
                        config=json.loads(json.dumps(cfg)))
                 return vd
     return vd
+
+
+def final_terminator(case):
+    """The record terminator the writer was asked to use (bytes), for the 'last line without terminator' runs."""
+    w = case["wopts"]
+    if "--ors" in w:
+        t = w[w.index("--ors") + 1]
+        return {"crlf": "\r\n", "lf": "\n"}.get(t, t).encode("utf-8")
+    if case["fmt"] in ("usv", "asv"):
+        return None
+    return b"\n"
 
 
 def tsv_dec(s):
